@@ -26,12 +26,12 @@ import (
 // ---------------------------------------------------------------------------
 
 const (
-	c35KData      = iota // DATA
-	c35KUnknown          // unknown / GREASE type
-	c35KReserved         // HTTP/2 types reserved by RFC 9114 7.2.8 (2, 6, 8, 9)
-	c35KMisplaced        // known type that is not allowed at this place (3, 4, 5, 7, 13)
-	c35KTrailers         // HEADERS with a valid field section (trailers)
-	c35KHeadersRaw       // HEADERS with an arbitrary payload
+	c35KData       = iota // DATA
+	c35KUnknown           // unknown / GREASE type
+	c35KReserved          // HTTP/2 types reserved by RFC 9114 7.2.8 (2, 6, 8, 9)
+	c35KMisplaced         // known type that is not allowed at this place (3, 4, 5, 7, 13)
+	c35KTrailers          // HEADERS with a valid field section (trailers)
+	c35KHeadersRaw        // HEADERS with an arbitrary payload
 )
 
 type c35Frame struct {
@@ -46,7 +46,7 @@ type c35Frame struct {
 }
 
 type c35Setting struct {
-	ID, Val      uint64
+	ID, Val       uint64
 	IDEnc, ValEnc int
 }
 
